@@ -1,6 +1,8 @@
 From Coq Require Import List NArith Bool.
 From V.gen Require Consts.
 From V.C12 Require Import Model Proofs Inv2 Async Sched Progress Live.
+From V.C11 Require Model PAlt.
+From V.Link Require C11_C12.
 Import ListNotations.
 Open Scope N_scope.
 From V.C12 Require Import Properties.
@@ -197,9 +199,20 @@ Check (C12_first_delivered_is_first_accepted :
 Check (C12_quiescence_is_a_schedule :
   forall (c : cfg) (hs : list (list bool)) (xs : list action),
     exists ts, arun c 0 (init hs) xs = final c hs ts).
+Check (C12_setup_condition_not_provided_by_C11 :
+  let r := V.C11.Model.run V.C11.PAlt.cfg_w V.C11.Model.init V.Link.C11_C12.w_reopen_while_closing in
+  let s := V.C11.PAlt.last_state V.C11.PAlt.cfg_w V.Link.C11_C12.w_reopen_while_closing in
+  snd r = true /\
+  V.C11.PAlt.events (fst r) =
+    [V.C11.Model.UOpened 0 V.C11.Model.DOut; V.C11.Model.UClosed 0; V.C11.Model.UValidate 0;
+     V.C11.Model.UOpened 0 V.C11.Model.DIn] /\
+  V.C11.Model.ps s 0 = Some (V.C11.Model.Open 1) /\
+  V.C11.Model.tasks s = [V.C11.Model.mkTask 0 0 (Some false) true; V.C11.Model.mkTask 1 0 None false]).
 From Coq Require Import List NArith Bool.
 From V.C12 Require Import Start StartProofs.
 From V.gen Require C12Tables.
+From V.C04 Require Model Proofs.
+From V.Link Require C04_C12.
 Import ListNotations.
 Open Scope N_scope.
 From V.C12 Require Import StartProperties.
@@ -260,3 +273,25 @@ Check (C12_tables_in_sync :
   C12Tables.forget_sites = [true; true; true; true; true] /\
   1 <= C12Tables.C12_SYNC_CHANNEL_SIZE /\ 1 <= C12Tables.C12_ASYNC_CHANNEL_SIZE /\
   1 <= C12Tables.C12_NEGOTIATION_TIMEOUT_SECS).
+Check (C12_start_carrier_prefix_linked :
+  forall (enc : frame -> list N), (forall a b, enc a = enc b -> a = b) ->
+  forall (c : V.C04.Model.codec) (written received : list frame) (cut : nat)
+         (script : list V.C04.Model.rdev) (polls : nat) outs st' wire' script',
+    V.C04.Proofs.Fits c (map enc written) ->
+    V.C04.Model.run_reader polls c (V.C04.Model.init_r c)
+      (firstn cut (V.C04.Model.wire_of c (map enc written))) script = (outs, st', wire', script') ->
+    map enc received = V.C04.Model.frames_of outs ->
+    prefix received written).
+Check (C12_start_end_to_end_linked :
+  forall (enc : frame -> list N), (forall a b, enc a = enc b -> a = b) ->
+  forall (c : V.C04.Model.codec) (autoa autob : bool) (la lb : list op) (ta tb : task)
+         (cut : nat) (script : list V.C04.Model.rdev) (polls : nat) outs st' wire' script',
+    In ta (tasks (final true autoa la)) -> In tb (tasks (final true autob lb)) ->
+    V.C04.Proofs.Fits c (map enc (s_out (t_out ta))) ->
+    V.C04.Model.run_reader polls c (V.C04.Model.init_r c)
+      (firstn cut (V.C04.Model.wire_of c (map enc (s_out (t_out ta))))) script = (outs, st', wire', script') ->
+    map enc (s_hist (t_in tb)) = V.C04.Model.frames_of outs ->
+    exists q, s_out (t_out ta) = LOCAL_HS :: q /\ s_hs (t_in tb) = [LOCAL_HS] /\ prefix (t_fwd tb) q).
+Check (C12_start_enc_satisfiable :
+  (forall a b, V.Link.C04_C12.enc_example a = V.Link.C04_C12.enc_example b -> a = b) /\
+  V.Link.C04_C12.enc_example EMPTY = []).
